@@ -163,9 +163,6 @@ fn main() {
                         r
                     }
                 };
-                for l in &r.trace {
-                    writeln!(out, "{}", l).unwrap();
-                }
                 for (cl, d) in &r.fails {
                     if want(cl, &only) || cl == "c03-panic" {
                         writeln!(out, "FAIL {} :: {}", cl, d).unwrap();
